@@ -22,3 +22,4 @@ def run(ctx):
     immut.im9(ctx)
     immut.im10(ctx)
     immut.im11(ctx)
+    immut.im13(ctx)     # nobody writes into the cache of a URL it did not create (shared, memoised objects)
